@@ -137,7 +137,12 @@ def gen_plan(prop, tier, rng, i):
         flush()
     while pending:
         flush()
-    return {"engine": "evsim16", "limits": limits, "groups": [list(g) for g in groups], "steps": steps, "smax": smax}
+    plan = {"engine": "evsim16", "limits": limits, "groups": [list(g) for g in groups], "steps": steps, "smax": smax}
+    if i % (3 if tier == "thorough" else 6) == 2:
+        # thread tier: the existing-file scan thread and the event thread race under the baton scheduler
+        plan["threads"] = {"seed": rng.randrange(2**32), "p_switch": rng.choice([0.05, 0.2, 0.5]),
+                           "split": rng.random()}
+    return plan
 
 
 def shrink_candidates(plan):
@@ -166,6 +171,257 @@ def _key_of(path):
     return int(m.group("secs")) * 1000 + int(m.group("frac") or 0)
 
 
+class StepCap(Exception):
+    pass
+
+
+class Baton:
+    """Cooperative scheduler for real threads: exactly one thread runs; at every traced line of
+    ringbuffer.py (and at every lock operation) the PRNG may pass the baton to another thread."""
+
+    def __init__(self, seed, p_switch, cap=200000):
+        import random
+        import threading
+
+        self.rng = random.Random(seed)
+        self.p = p_switch
+        self.cap = cap
+        self.cv = threading.Condition()
+        self.current = None
+        self.alive = []
+        self.waiting_lock = {}
+        self.steps = 0
+        self.switches = 0
+        self.trace = []
+        self.failed = None
+
+    def register(self, tids):
+        self.alive = sorted(tids)
+        self.current = self.rng.choice(self.alive)
+
+    def wait_turn(self, tid):
+        with self.cv:
+            while self.current != tid and self.failed is None:
+                self.cv.wait(timeout=20)
+                if self.current != tid and self.failed is None and not self.cv.wait_for(lambda: True, timeout=0):
+                    pass
+        if self.failed is not None and self.current != tid:
+            raise StepCap(self.failed)
+
+    def _runnable(self, lock_owner):
+        return [t for t in self.alive if t not in self.waiting_lock or lock_owner() in (None, t)]
+
+    def pass_to(self, tid, nxt, why):
+        self.switches += 1
+        self.trace.append("%s>%s@%s" % (tid, nxt, why))
+        with self.cv:
+            self.current = nxt
+            self.cv.notify_all()
+        self.wait_turn(tid)
+
+    def yield_point(self, tid, label, lock):
+        self.steps += 1
+        if self.steps > self.cap:
+            self.failed = "step cap reached (no progress / livelock)"
+            with self.cv:
+                self.cv.notify_all()
+            raise StepCap(self.failed)
+        others = [t for t in self.alive if t != tid and not (t in self.waiting_lock and lock.owner not in (None, t))]
+        if others and self.rng.random() < self.p:
+            self.pass_to(tid, self.rng.choice(others), label)
+
+    def finish(self, tid):
+        self.alive = [t for t in self.alive if t != tid]
+        with self.cv:
+            if self.alive:
+                self.current = self.rng.choice(self.alive)
+            else:
+                self.current = None
+            self.cv.notify_all()
+
+
+class SchedRLock:
+    """re-entrant lock understood by the baton scheduler (replaces handler._record_lock)"""
+
+    def __init__(self, baton, tid_of):
+        self.baton, self.tid_of = baton, tid_of
+        self.owner, self.count = None, 0
+
+    def acquire(self, blocking=True, timeout=-1):
+        tid = self.tid_of()
+        b = self.baton
+        b.yield_point(tid, "lock", self)
+        while self.owner not in (None, tid):
+            b.waiting_lock[tid] = True
+            b.pass_to(tid, self.owner, "blocked")
+        b.waiting_lock.pop(tid, None)
+        self.owner = tid
+        self.count += 1
+        return True
+
+    def release(self):
+        self.count -= 1
+        if self.count == 0:
+            self.owner = None
+        self.baton.yield_point(self.tid_of(), "unlock", self)
+
+    __enter__ = lambda self: self.acquire()  # noqa
+
+    def __exit__(self, *a):
+        self.release()
+        return False
+
+
+def _run_threaded(plan, res, sc):
+    """C16 thread tier: only schedule-independent clauses are asserted."""
+    import sys
+    import threading
+
+    import digital_rf
+    from digital_rf import ringbuffer as rbmod
+    from watchdog import events as we
+
+    root = os.path.join(sc, "watched")
+    os.makedirs(root)
+    lim = plan["limits"]
+    th = plan["threads"]
+    real_remove = os.remove
+    for ch, k in plan["groups"]:
+        os.makedirs(os.path.join(root, ch), exist_ok=True)
+        open(os.path.join(root, ch, "drf_properties.h5"), "w").close()
+        if k == "md":
+            os.makedirs(os.path.join(root, ch, "metadata"), exist_ok=True)
+            open(os.path.join(root, ch, "metadata", "dmd_properties.h5"), "w").close()
+    # world: apply all fs steps first (files exist before the two threads start), keep the events
+    events = []
+    steps = plan["steps"]
+    cut = int(th["split"] * len(steps))
+    for si, st in enumerate(steps):
+        s = st["s"]
+        if s in ("fs_create", "fs_grow"):
+            p = os.path.join(root, st["p"])
+            os.makedirs(os.path.dirname(p), exist_ok=True)
+            with open(p, "wb") as f:
+                f.write(b"x" * st["size"])
+        elif s == "fs_move":
+            p, q = os.path.join(root, st["p"]), os.path.join(root, st["q"])
+            if os.path.exists(p):
+                os.rename(p, q)
+        elif s == "fs_del" and si < cut:
+            p = os.path.join(root, st["p"])
+            if os.path.exists(p):
+                real_remove(p)
+        elif s == "ev":
+            events.append(st)
+    rb = rbmod.DigitalRFRingbuffer(root, size=lim["size"], count=lim["count"], duration=lim["duration"],
+                                   verbose=False, status_interval=None)
+    h = rb.event_handler
+    baton = Baton(th["seed"], th["p_switch"])
+    tids = {}
+
+    def tid_of():
+        return tids[threading.get_ident()]
+
+    lock = SchedRLock(baton, tid_of)
+    h._record_lock = lock
+    errors = []
+
+    def my_remove(path, *a, **kw):
+        path = os.fspath(path)
+        if path.startswith(root + os.sep):
+            res.stat("deletions")
+            base = os.path.basename(path)
+            if base.startswith("tmp.") or not RE_DATA.match(path):
+                res.violate("C16", "deleted_non_data_file", "[threads] os.remove(%s)" % os.path.relpath(path, root))
+            g, k = _group_of(root, path), _key_of(path)
+            older = [p for p in list(h.records) if p != path and _group_of(root, p) == g and _key_of(p) < k]
+            if older:
+                res.violate("C16", "not_oldest_first", "[threads] deleted %s while older %s of the same channel is tracked" % (
+                    os.path.relpath(path, root), os.path.relpath(older[0], root)))
+        elif path.startswith(sc):
+            res.violate("C16", "deleted_outside_tree", "[threads] os.remove(%s)" % path)
+        return real_remove(path, *a, **kw)
+
+    def tracer_for(tid):
+        def local(frame, event, arg):
+            if event == "line":
+                baton.yield_point(tid, "L%d" % frame.f_lineno, lock)
+            return local
+
+        def glob(frame, event, arg):
+            if frame.f_code.co_filename.endswith("ringbuffer.py"):
+                return local
+            return None
+        return glob
+
+    def body(tid, fn):
+        tids[threading.get_ident()] = tid
+        try:
+            baton.wait_turn(tid)
+            sys.settrace(tracer_for(tid))
+            try:
+                fn()
+            finally:
+                sys.settrace(None)
+        except StepCap as e:
+            errors.append(("step_cap", str(e)))
+        except Exception as e:  # noqa
+            import traceback
+
+            errors.append(("exception", "%s: %s | %s" % (type(e).__name__, e, traceback.format_exc()[-400:])))
+        finally:
+            baton.finish(tid)
+
+    mk = {"created": we.FileCreatedEvent, "modified": we.FileModifiedEvent, "deleted": we.FileDeletedEvent}
+
+    def t_events():
+        for st in events:
+            p = os.path.join(root, st["p"])
+            if st["k"] == "moved":
+                h.dispatch(we.FileMovedEvent(p, os.path.join(root, st["q"])))
+            else:
+                h.dispatch(mk[st["k"]](p))
+
+    baton.register(["scan", "events"])
+    os.remove = my_remove
+    try:
+        t1 = threading.Thread(target=body, args=("scan", rb._add_existing_files), daemon=True)
+        t2 = threading.Thread(target=body, args=("events", t_events), daemon=True)
+        t1.start()
+        t2.start()
+        t1.join(60)
+        t2.join(60)
+        if t1.is_alive() or t2.is_alive():
+            baton.failed = "deadlock"
+            with baton.cv:
+                baton.cv.notify_all()
+            res.violate("C16", "threads_deadlock", "scan and event threads did not finish (schedule of %d switches)" % baton.switches)
+    finally:
+        os.remove = real_remove
+    for kind, msg in errors:
+        res.violate("C16", "threads_" + kind, msg)
+    # internal consistency once both threads are done (all mutations happen under the lock)
+    recs = h.records
+    qpaths = [p for q in h.queues.values() for _, p in q]
+    if sorted(qpaths) != sorted(recs.keys()):
+        res.violate("C16", "records_vs_queues", "[threads] records and queues disagree after both threads finished")
+    for g, q in h.queues.items():
+        ks = [k for k, _ in q]
+        if ks != sorted(ks):
+            res.violate("C16", "queue_not_sorted", "[threads] queue of %s not ascending" % (g,))
+    if lim["size"] is not None and h.active_size != sum(r.size for r in recs.values()):
+        res.violate("C16", "active_size_wrong", "[threads] active_size %d != sum of record sizes %d" % (
+            h.active_size, sum(r.size for r in recs.values())))
+    import hashlib
+
+    res.trace.add("sched", hashlib.sha256("|".join(baton.trace).encode()).hexdigest()[:16], baton.switches, len(recs))
+    res.stats["thread_switches"] = baton.switches
+    res.stats["scheduler_steps"] = baton.steps
+    res.faults["thread_preemption"] = baton.switches
+    res.probe("thread_tier_run")
+    res.nontrivial = baton.switches >= 2 and len(events) >= 3
+
+
 def run_plan(prop, plan):
     import digital_rf
     from digital_rf import ringbuffer as rbmod
@@ -174,6 +430,13 @@ def run_plan(prop, plan):
     res = K.RunResult()
     _counter[0] += 1
     sc = K.new_scratch("ev16-%d-%d" % (os.getpid(), _counter[0]))
+    if plan.get("threads"):
+        try:
+            _run_threaded(plan, res, sc)
+            return res
+        finally:
+            if not os.environ.get("VSIM_KEEP"):
+                shutil.rmtree(sc, ignore_errors=True)
     root = os.path.join(sc, "watched")
     os.makedirs(root)
     lim = plan["limits"]
